@@ -104,7 +104,7 @@ func (g *Generator) ListTypes() []string {
 		if !g.TestFile(f) {
 			continue
 		}
-		ast.Inspect(f, func(n ast.Node) bool {
+		shoot.InspectTopLevel(f, func(n ast.Node) bool {
 			if !g.testNode("", n) {
 				return true
 			}
